@@ -40,7 +40,7 @@ def _work(args):
   for tid in range(lo, hi):
     rng = random.Random((seed << 24) ^ (tid * 2654435761 % (1 << 32)))
     if maker:
-      chart, ops = maker(rng, P)
+      chart, ops = maker(rng, P, tid, seed) if getattr(maker, "wants_tid", False) else maker(rng, P)
     else:
       chart = gen.gen_chart(rng, P)
       ops = gen.gen_ops(rng, chart, P)
@@ -64,7 +64,7 @@ def nontrivial_key(t):
   return json.dumps([c["par"], c["init"], c["react"], c["host"], c["spied"], t["ops"]])
 
 
-def run(run, prop, n, P, maker=None, relevant=None, batch=1500, is_nontrivial=None):
+def run(run, prop, n, P, maker=None, relevant=None, batch=1500, is_nontrivial=None, attr=None):
   """run: common.Run.  Records n traces, validates, files violations attributed to `prop`."""
   traces = record(common.seed(), n, P, maker)
   states = trans = 0
@@ -88,7 +88,7 @@ def run(run, prop, n, P, maker=None, relevant=None, batch=1500, is_nontrivial=No
           seen.add(k)
           nontriv += 1
       if "bad" in v:
-        props = attribute(v)
+        props = (attr or attribute)(v)
         if prop in props and (relevant is None or relevant(t, v)):
           key = "%s@%s:%s" % ("+".join(sorted(v["bad"])), v.get("k"), v.get("kind"))
           run.violation(key, "trace %d rejected at op %d (%s): clauses %s" % (t["tid"], v["at"], v.get("k"), v["bad"]),
